@@ -640,6 +640,13 @@ int main()
                     S.fillStartGoal(s, g, thr);
                     S.enter();
                     S.planner->setProblemDefinition(S.pdef);
+                    if (!S.setupDone)
+                    {
+                        // as SimpleSetup::setup() does: the planner is set up once it has its problem definition, so
+                        // clear()/getPlannerData() before the first solve() act on a set-up planner
+                        S.planner->setup();
+                        S.setupDone = true;
+                    }
                     S.leave();
                     oldp.reset();  // the caller drops the old problem definition
                 }
